@@ -40,7 +40,7 @@ Fixpoint bad_idx {A} (f : A -> bool) (i : nat) (l : list A) : list nat :=
   match l with [] => [] | x :: r => if f x then bad_idx f (S i) r else i :: bad_idx f (S i) r end.
 """
 XSI = G.XSI
-FLAG_NAMES = ["content", "attrs", "attr_types", "text_type", "closure", "order_safe", "order_claimed", "cm_wf"]
+FLAG_NAMES = ["content", "attrs", "attr_types", "text_type", "closure", "order_safe", "order_claimed", "cm_wf", "nillable_bound"]
 
 # output-only generator options (the property says they must not matter)
 OUTPUT_ONLY = [
@@ -289,8 +289,10 @@ def xclass_term(cv, cidx):
     tx = "None" if not text else f"(Some {ftype_term(text[0])})"
     xsi = clist([f"({cstr(q)}, {cnat(cidx[c])})" for q, c in sorted(cv["xsi"].items()) if c in cidx], str, "(name * nat)")
     bases = clist([cnat(i) for b, i in sorted(cidx.items()) if b.partition("@")[0] in cv["bases"]], str, "nat")
+    nillables = clist(sorted({w["qname"] for v in cv["elements"] for w in [v] + v["choices"] if w.get("nillable") and w.get("qname")}),
+                      cstr, "name")
     return (f"(mk_xclass {meta} {clist(tterms, str, '(list (name * ftarget))')} {afields} {atypes} {aa} {tx} {xsi} "
-            f"{cbool(cv['nillable'])} {bases})")
+            f"{cbool(cv['nillable'])} {bases} {nillables})")
 
 
 # ------------------------------------------------------------------ pairing proposal (checked in Coq: closure flag)
@@ -462,6 +464,53 @@ def classify_doc(run, doc, dr, feats, active):
     return [QUIRK_CLASS[q] for q in active]
 
 
+# ------------------------------------------------------------------ witnesses of FIXED findings: run with every check
+FIXED_WITNESSES = [
+    # C02-F1 (fixed 6a57843): a default on an xs:gYear attribute made the generated package fail at import
+    {"name": "F1-period-default", "root": "doc", "sources": {"main.xsd": """<?xml version="1.0" encoding="UTF-8"?>
+<xs:schema xmlns:xs="http://www.w3.org/2001/XMLSchema">
+  <xs:element name="doc">
+    <xs:complexType>
+      <xs:sequence>
+        <xs:element name="m" type="xs:gMonthDay" default="--12-25" minOccurs="0"/>
+      </xs:sequence>
+      <xs:attribute name="n" type="xs:gYear" default="2001"/>
+      <xs:attribute name="ym" type="xs:gYearMonth" fixed="1999-05"/>
+    </xs:complexType>
+  </xs:element>
+</xs:schema>
+"""}, "docs": ['<doc/>', '<doc n="1999"><m>--01-31</m></doc>', '<doc ym="1999-05" n="2024Z"/>']},
+    # C02-F6 (fixed 9405ceb): a binary-typed child inside mixed content was refused (Unknown format 'None')
+    {"name": "F6-mixed-binary-child", "root": "{urn:w}e", "sources": {"main.xsd": """<?xml version="1.0" encoding="UTF-8"?>
+<xs:schema xmlns:xs="http://www.w3.org/2001/XMLSchema" targetNamespace="urn:w" elementFormDefault="qualified">
+  <xs:element name="e">
+    <xs:complexType mixed="true">
+      <xs:sequence>
+        <xs:element name="a" type="xs:hexBinary" minOccurs="0" maxOccurs="unbounded"/>
+        <xs:element name="b" type="xs:base64Binary" minOccurs="0"/>
+      </xs:sequence>
+    </xs:complexType>
+  </xs:element>
+</xs:schema>
+"""}, "docs": ['<e xmlns="urn:w">t<a>0A</a>u<a>ff00</a><b>AAEC</b>v</e>', '<w:e xmlns:w="urn:w"><w:a>7478313E</w:a></w:e>',
+               '<e xmlns="urn:w">only text</e>']},
+]
+
+
+def witness_programs():
+    out = []
+    for w in FIXED_WITNESSES:
+        schema = R.read_schema(w["sources"])
+        lx = G.compile_schema(w["sources"])
+        for d in w["docs"]:
+            ok, err = G.validate(lx, d)
+            if not ok:
+                raise RuntimeError(f"witness document of {w['name']} is not schema-valid: {err}")
+        out.append({"m": {"features": ["witness:" + w["name"]], "files": [{"tns": None}]}, "sources": w["sources"], "docs": list(w["docs"]),
+                    "schema": schema, "root": w["root"], "lxml": lx, "witness": w["name"]})
+    return out
+
+
 # ------------------------------------------------------------------ the check
 def run(ck: Check):
     ck.level = "translation_validation"
@@ -494,6 +543,7 @@ def run(ck: Check):
                          "lxml": G.compile_schema(texts)})
     if genbugs:
         raise RuntimeError("xsd_gen produced a document lxml rejects (generator bug): " + json.dumps(genbugs[0])[:3000])
+    programs += witness_programs()
 
     # ---------------- the real pipeline under the option matrix
     payload = []
@@ -622,7 +672,7 @@ def run(ck: Check):
         progs = clist(pnames, str, "program")
         evals = [f"map (fun p => map (pair_flags p) (p_pairs p)) {progs}",
                  f"map (fun p => map (pair_rejected p) (p_pairs p)) {progs}",
-                 f"map (fun p => map (pair_open_decls p) (p_pairs p)) {progs}",
+                 f"map (fun p => map (fun tc => (pair_open_decls p tc, pair_unbound_nillables p tc)) (p_pairs p)) {progs}",
                  f"map root_paired {progs}"]
         evals += [f"bad_idx {pr} 0 ALLDOCS" for pr in DOC_PREDS]
         evals += ["map doc_brejecting ALLDOCS", "map doc_diff ALLDOCS", "map doc_quirks ALLDOCS", "map doc_active ALLDOCS"]
@@ -681,16 +731,17 @@ def run(ck: Check):
                 names = dict(zip(FLAG_NAMES, fl))
                 if not names["cm_wf"]:
                     raise RuntimeError("C02 reader produced an ill-formed content model")
-                if all(fl[:5]):
+                if all(fl[:5]) and names["nillable_bound"]:
                     stats["pairs_check_true"] += 1
                     continue
                 cls_id = rr["res"]["classes"][tc[1]]["id"]
                 tname = p["schema"]["types"][tc[0]]["name"] or f"anonymous type #{tc[0]}"
-                failed = [n for n in FLAG_NAMES[:5] if not names[n]]
+                failed = [n for n in FLAG_NAMES[:5] + ["nillable_bound"] if not names[n]]
                 w = rejected[ri][pi_]
                 word = ["".join(chr(c) for c in q) for q in w] if w is not None else None
                 info = {"type": tname, "class": cls_id, "failed": failed, "word": word,
-                        "open_decls": ["".join(chr(c) for c in q) for q in opend[ri][pi_]]}
+                        "open_decls": ["".join(chr(c) for c in q) for q in opend[ri][pi_][0]],
+                        "unbound_nillables": ["".join(chr(c) for c in q) for q in opend[ri][pi_][1]]}
                 if not names["content"] and word is not None:
                     witness_jobs.append((rr, tc, info))
                 else:
@@ -869,6 +920,10 @@ def classify_pair(rr, tc, info):
     """Narrow class of a (type, class) pair the validator rejects and the real parser confirms."""
     t = rr["p"]["schema"]["types"][tc[0]]
     word = info.get("word") or []
+    if info.get("failed") == ["nillable_bound"]:
+        decls = {d["qname"]: d for d in t["decls"]}
+        if all(decls[q].get("named_simple") for q in info.get("unbound_nillables", []) if q in decls):
+            return "nillable-lost-for-named-simple-type"
     if info.get("failed") == ["content"] and any(q.startswith("\x00") for q in word) \
             and t["content"][0] in ("elems", "mixed") and has_other_wildcard(t["content"][1]):
         return "wildcard-other-resolved-against-parent-namespace"
